@@ -76,6 +76,7 @@ type scenario struct {
 	Steer    steer  `json:"steer"`
 	Focus    string `json:"focus,omitempty"` // generator flavour: "" | unified | unified-small
 	Canon    bool   `json:"canon,omitempty"` // member of the seed-independent battery (coverage rows "canon|...")
+	Sib      bool   `json:"sib,omitempty"`   // generator flavour: several processes with sibling contexts created up front
 	// Mig: the driver is built with fake command processors and a fake MMU
 	// on a serial engine (drvkit Options.Migration) and the history contains
 	// page migrations.
@@ -145,6 +146,9 @@ type bufSt struct {
 	size   uint64
 	pages  []*pageSt
 	live   bool
+	// freedVia: context the FreeMemory went through (-1 while live). Buffers
+	// belong to the process: any context of it may free / remap / distribute.
+	freedVia int
 }
 
 type ctxSt struct {
@@ -181,6 +185,8 @@ type world struct {
 	retMig       map[uint64]int // frames handed out by a migration and returned by a free, not seen again yet -> device
 	multiPgFree  bool
 	fullEpisodes int
+
+	sibStale int // walks x entries of buffers freed through a sibling still listed as not freed
 
 	probeSucceeded bool
 	lastProbeCtx   int
@@ -621,7 +627,18 @@ func (w *world) walk(by string) bool {
 		ok := len(vb) == len(c.bufs) && c.ctx.VerifPID() == c.pid
 		for j := 0; ok && j < len(vb); j++ {
 			b := w.bufs[c.bufs[j]]
-			ok = uint64(vb[j].Ptr) == b.ptr && vb[j].Size == b.size && vb[j].Freed == !b.live && vb[j].PID == b.pid
+			ok = uint64(vb[j].Ptr) == b.ptr && vb[j].Size == b.size && vb[j].PID == b.pid
+			if !b.live && b.freedVia != ci {
+				// freed through a sibling context: FreeMemory marks the entry
+				// of the CALLING context only, the allocating context keeps
+				// listing the buffer as not freed (observed, not judged: the
+				// list only steers cache flushes)
+				if !vb[j].Freed {
+					w.sibStale++
+				}
+			} else if vb[j].Freed == b.live {
+				ok = false
+			}
 		}
 		if !ok {
 			w.viol("context-buffer-list-disagrees|"+w.alloc(),
@@ -699,9 +716,7 @@ func (w *world) precheck(o op) string {
 		if why != "" {
 			return why
 		}
-		if b.ctx != o.C {
-			return "buffer was allocated through another context"
-		}
+		_ = b // any context of the owning process may free (checked by bufOf)
 	case kRemap:
 		b, why := bufOf()
 		if why != "" {
@@ -857,6 +872,7 @@ func (w *world) exec(o op) bool {
 		}
 		w.covTarget("remap", "target", o.Dev, n)
 		w.cov("remap|over-pages-placed-by=" + b.pages[o.Off].classBy)
+		w.cov("remap|" + w.via(o.C, b))
 		w.cov("remap|target=" + w.kindName(o.Dev) + "|" + sizeClass(o.Size, w.ps))
 		if o.Tight {
 			w.cov("remap|target=" + w.kindName(o.Dev) + "|a-member-has-less-room-than-the-range")
@@ -906,6 +922,7 @@ func (w *world) exec(o op) bool {
 		w.rec.Distinct("distribute_width", fmt.Sprint(len(o.Devs)))
 		w.cov("dist|list|" + listShape(w, o.Devs))
 		w.cov("dist|over-pages-placed-by=" + b.pages[0].classBy)
+		w.cov("dist|" + w.via(o.C, b))
 		w.cov(fmt.Sprintf("dist|list-length=%d", len(o.Devs)))
 		if len(ret) != len(o.Devs) {
 			w.viol("distribute-return-length", fmt.Sprintf("Distribute over %d GPUs returned %d counts", len(o.Devs), len(ret)), nil)
@@ -1008,9 +1025,19 @@ func (w *world) execAlloc(o op) bool {
 		w.cov("allocu|" + sizeClass(size, w.ps))
 	case kAlloc:
 		w.covTarget("alloc", "cur", tgt, n)
+		through := "through=first-context-of-the-process"
+		for i, oc := range w.ctxs {
+			if oc.pid == c.pid {
+				if i != o.C {
+					through = "through=sibling-context"
+				}
+				break
+			}
+		}
+		w.cov("alloc|" + through)
 		w.cov("alloc|cur=" + w.kindName(tgt) + "|" + sizeClass(size, w.ps))
 	}
-	b := &bufSt{serial: len(w.bufs), ctx: o.C, pid: c.pid, ptr: uint64(ptr), size: size, live: true}
+	b := &bufSt{serial: len(w.bufs), ctx: o.C, pid: c.pid, ptr: uint64(ptr), size: size, live: true, freedVia: -1}
 	desc := map[string]any{"ptr": uint64(ptr), "size": size}
 	if b.ptr%w.ps != 0 {
 		w.viol("pointer-unaligned|"+w.alloc(), fmt.Sprintf("%s returned 0x%x, not a multiple of the page size %d", o.K, b.ptr, w.ps), desc)
@@ -1078,6 +1105,7 @@ func (w *world) execFree(o op) bool {
 		w.multiPgFree = true
 	}
 	w.cov("free|placed-by=" + w.placementOf(b) + "|" + pclass(len(b.pages), 1))
+	w.cov("free|" + w.via(o.C, b) + "|other-process-has-same-vaddr=" + w.sameVAddrElsewhere(b))
 	// post-condition of this free, before the global walk, so that the two
 	// defects confirmed on the pinned tree get their own keys
 	var still []int
@@ -1091,7 +1119,10 @@ func (w *world) execFree(o op) bool {
 		desc := map[string]any{"buffer": b.serial, "pid": b.pid, "ptr": b.ptr, "pages": len(b.pages), "pages_still_mapped": still}
 		if still[0] == 0 {
 			// is a page of ANOTHER process at the same virtual address gone instead?
-			if lw, ok := w.lastWriter[b.ptr]; ok && lw != b.pid {
+			for _, lw := range w.pids {
+				if lw == b.pid {
+					continue
+				}
 				if _, found := w.rig.PageTable.Find(lw, b.ptr); !found && w.hasLivePage(lw, b.ptr) {
 					desc["victim_pid"] = lw
 					w.viol("free-acts-on-other-process-page-at-same-vaddr|victim-unmapped",
@@ -1113,6 +1144,7 @@ func (w *world) execFree(o op) bool {
 		return false
 	}
 	b.live = false
+	b.freedVia = o.C
 	for _, p := range b.pages {
 		w.returned[p.paddr] = true
 		if p.classBy == kMigrate {
@@ -1123,6 +1155,41 @@ func (w *world) execFree(o op) bool {
 		w.releasePage(p.paddr)
 	}
 	return w.walk(o.K)
+}
+
+// via: was the step issued through the context that allocated the buffer or
+// through a sibling (another context of the same process)?
+func (w *world) via(c int, b *bufSt) string {
+	if c == b.ctx {
+		return "via=allocating-context"
+	}
+	return "via=sibling"
+}
+
+// sameVAddrElsewhere: does another process hold a LIVE buffer that starts at
+// the same virtual address, and was the context that allocated it created
+// before or after the context that allocated b (the driver's context list is
+// in creation order)?
+func (w *world) sameVAddrElsewhere(b *bufSt) string {
+	earlier, later := false, false
+	for _, ob := range w.bufs {
+		if ob.live && ob.pid != b.pid && ob.ptr == b.ptr {
+			if ob.ctx < b.ctx {
+				earlier = true
+			} else {
+				later = true
+			}
+		}
+	}
+	switch {
+	case earlier && later:
+		return "yes-created-earlier-and-later"
+	case earlier:
+		return "yes-created-earlier"
+	case later:
+		return "yes-created-later"
+	}
+	return "no"
 }
 
 func (w *world) hasLivePage(pid vm.PID, vaddr uint64) bool {
